@@ -173,6 +173,15 @@ Proof.
 Qed.
 Print Assumptions c07_expo_float64.
 
+(** The executable judge the correspondence run applies to implementation observations at
+    any scale (certified scale-20 indexes shifted down, tallies compared) implies the
+    specification's placement clause. *)
+Theorem c07_expo_judge_sound : forall mxs vz t p,
+  mxs <= 20 -> expo_table mxs vz = Some t -> ep_scale p <= mxs ->
+  placed_b t vz p = true -> expo_placed U vz p.
+Proof. exact placed_b_sound. Qed.
+Print Assumptions c07_expo_judge_sound.
+
 (** ** F-C07-1 (known, not repaired): without the fit guard the count clause is false.
     MaxSize 1 with 0.5 and 2; MaxSize 2 with 5e-324 and 2 (contrary to the code comment
     "this can only happen if there is a max size of 1").  MaxScale 0, so no gb is involved. *)
